@@ -285,9 +285,11 @@ def run(ctx):
         seq = [p for p in ps if any(t == idx_discr and v != 1 for t, v in p.cons)]
         nones = [p for p in seq if is_agg(p.ret, None, 'None')]
         items = [p for p in seq if is_agg(p.ret, None, 'Some')]
+        from .C07 import counter_and_limit
+        counter, limit = counter_and_limit(ps)
         def ge(p):
             for t, v in p.cons:
-                if t[0] == 'bin' and t[1] in ('Ge', 'Lt') and 'current_pos' in absint.term_str(t[2]) and 'file_length' in absint.term_str(t[3]):
+                if t[0] == 'bin' and t[1] in ('Ge', 'Lt') and counter and t[2] == ('load', counter) and t[3] == ('load', limit):
                     truth = (v != 0) if isinstance(v, int) else True
                     return truth if t[1] == 'Ge' else (not truth)
             return None
@@ -298,7 +300,7 @@ def run(ctx):
         for p in items:
             if not is_agg(agg_field(p.ret, '0'), None, 'Ok'):
                 continue
-            st = [e for e in p.eff if e[0] == 'store' and 'current_pos' in str(e[1][1])]
+            st = [e for e in p.eff if e[0] == 'store' and e[1] == counter]
             if not st:
                 adv = False
                 continue
@@ -318,13 +320,23 @@ def run(ctx):
     if fs:
         ps, _ = util.run_fn(F, fs[0])
         ok = bool(ps)
+        lim_name = limit[1][0][1] if (fn and idxf and limit) else 'length'
         for p in ps:
             r = p.ret
-            fl = [v for k, v in r[4] if 'length' in k] if is_agg(r) else []
+            fl = [v for k, v in r[4] if k == lim_name] if is_agg(r) else []
             try:
                 form = affine.lin(fl[0]) if fl else None
             except affine.NotAffine:
                 form = None
+            if form is not None and not form:
+                form = {(): 0}
+            if form is not None and list(form) == [()] and form[()] == 0:
+                # limit 0 (nothing to iterate) is right exactly when the declared length is not positive
+                neg = any(t[0] == 'bin' and t[1] in ('Gt', 'Le', 'Lt', 'Ge') and 'file_length' in absint.term_str(t)
+                          and ('int', 0) in (t[2], t[3]) for t, v in p.cons)
+                if not neg:
+                    ok = False
+                continue
             if not form or form.get((), 0) != 0 or list(v for k, v in form.items() if k != ()) != [2] or 'file_length' not in affine.show(form):
                 ok = False
         ctx.ob("C03.stop", "declared length in bytes", ok, "the iterator's limit is 2 * header.file_length", site=ctx.site_of(F, fs[0]["def"]),
